@@ -1,0 +1,11 @@
+//go:build !verif
+
+package avro
+
+// Simulation hooks (see verif_on.go) are compiled out unless the verif build
+// tag is set: verifOn is a constant false and the guarded calls are dead code.
+const verifOn = false
+
+func simYield(site string)             {}
+func simBankGet() *ResourceBank        { return nil }
+func simBankPut(rb *ResourceBank) bool { return false }
